@@ -7,16 +7,16 @@ cd "$WT" || exit 2
 M="$WT/_mutation"
 LOG="$M/verify.log"
 : > "$LOG"
-git checkout -q -- . ; git clean -fdq -e _mutation -e target
+git reset -q --hard ; git clean -fdq -e _mutation -e target
 git apply "$M/demo.diff" || { echo "demo.diff does not apply" >> "$LOG"; exit 2; }
 echo "== demo on original: cargo test --offline $*" >> "$LOG"
 if timeout 1500 cargo test --offline "$@" >> "$LOG" 2>&1; then echo "RESULT demo_on_original=PASS" >> "$LOG"; else echo "RESULT demo_on_original=FAIL" >> "$LOG"; fi
 git apply "$M/patch.diff" || { echo "patch.diff does not apply on top of demo" >> "$LOG"; exit 2; }
 echo "== demo with patch" >> "$LOG"
 if timeout 1500 cargo test --offline "$@" >> "$LOG" 2>&1; then echo "RESULT demo_with_patch=PASS" >> "$LOG"; else echo "RESULT demo_with_patch=FAIL" >> "$LOG"; fi
-git checkout -q -- . ; git clean -fdq -e _mutation -e target
+git reset -q --hard ; git clean -fdq -e _mutation -e target
 git apply "$M/patch.diff"
 echo "== suite with patch only" >> "$LOG"
 if timeout 3000 cargo nextest run --workspace --no-fail-fast --test-threads 8 --offline >> "$LOG" 2>&1; then echo "RESULT suite_with_patch=PASS" >> "$LOG"; else echo "RESULT suite_with_patch=FAIL" >> "$LOG"; fi
-git checkout -q -- . ; git clean -fdq -e _mutation -e target
+git reset -q --hard ; git clean -fdq -e _mutation -e target
 grep "^RESULT" "$LOG"
